@@ -51,8 +51,12 @@ type spec struct {
 	yield   map[string]int    // yields inside the body, per registered tool and handler
 	handler bool              // UnknownToolsHandler configured
 	mode    string            // invoke | stream
-	host    string            // direct (ToolsNode.Invoke/Stream) | graph (single node of a compiled graph)
+	host    string            // direct (ToolsNode.Invoke/Stream) | graph (single node of a compiled graph) | fanout | direct-list / graph-list
 }
+
+// listHost: the tools are given PER CALL (compose.WithToolList); the node itself is configured with decoys of the
+// same names whose answers would be wrong.
+func (sp *spec) listHost() bool { return strings.HasSuffix(sp.host, "-list") }
 
 func callID(i int) string   { return fmt.Sprintf("c%d", i) }
 func callArgs(i int) string { return fmt.Sprintf("a%d", i) }
@@ -168,6 +172,16 @@ func (t *core) stream(args string) (*schema.StreamReader[string], error) {
 	return schema.StreamReaderFromArray(chunks), nil
 }
 
+// decoyTool: what the node is configured with when the real tools come per call. It must never run.
+type decoyTool struct{ name string }
+
+func (t *decoyTool) Info(ctx context.Context) (*schema.ToolInfo, error) {
+	return &schema.ToolInfo{Name: t.name, Desc: t.name}, nil
+}
+func (t *decoyTool) InvokableRun(ctx context.Context, args string, opts ...tool.Option) (string, error) {
+	return "DECOY:" + t.name + "(" + args + ")", nil
+}
+
 type invTool struct{ core }
 
 func (t *invTool) InvokableRun(ctx context.Context, args string, opts ...tool.Option) (string, error) {
@@ -231,8 +245,14 @@ func (sp *spec) build() (func(), func(x *vsched.Exec) (string, error)) {
 	main := func() {
 		ctx := context.Background()
 		conf := &compose.ToolsNodeConfig{}
+		var callList []tool.BaseTool
 		for _, n := range toolNames {
-			conf.Tools = append(conf.Tools, w.tool(n))
+			if sp.listHost() {
+				conf.Tools = append(conf.Tools, &decoyTool{n})
+				callList = append(callList, w.tool(n))
+			} else {
+				conf.Tools = append(conf.Tools, w.tool(n))
+			}
 		}
 		if sp.handler {
 			conf.UnknownToolsHandler = func(ctx context.Context, name, input string) (string, error) {
@@ -297,7 +317,11 @@ func (sp *spec) build() (func(), func(x *vsched.Exec) (string, error)) {
 			ob.returned = true
 			return
 		}
-		if sp.host == "graph" {
+		if sp.host == "graph" || sp.host == "graph-list" {
+			var gopts []compose.Option
+			if sp.listHost() {
+				gopts = append(gopts, compose.WithToolsNodeOption(compose.WithToolList(callList...)))
+			}
 			g := compose.NewGraph[*schema.Message, []*schema.Message]()
 			if err := g.AddToolsNode("tools", tn); err != nil {
 				ob.setupErr = err
@@ -310,11 +334,15 @@ func (sp *spec) build() (func(), func(x *vsched.Exec) (string, error)) {
 				ob.setupErr = err
 				return
 			}
-			invoke = func() ([]*schema.Message, error) { return r.Invoke(ctx, msg) }
-			stream = func() (*schema.StreamReader[[]*schema.Message], error) { return r.Stream(ctx, msg) }
+			invoke = func() ([]*schema.Message, error) { return r.Invoke(ctx, msg, gopts...) }
+			stream = func() (*schema.StreamReader[[]*schema.Message], error) { return r.Stream(ctx, msg, gopts...) }
 		} else {
-			invoke = func() ([]*schema.Message, error) { return tn.Invoke(ctx, msg) }
-			stream = func() (*schema.StreamReader[[]*schema.Message], error) { return tn.Stream(ctx, msg) }
+			var topts []compose.ToolsNodeOption
+			if sp.listHost() {
+				topts = append(topts, compose.WithToolList(callList...))
+			}
+			invoke = func() ([]*schema.Message, error) { return tn.Invoke(ctx, msg, topts...) }
+			stream = func() (*schema.StreamReader[[]*schema.Message], error) { return tn.Stream(ctx, msg, topts...) }
 			// the caller of a bare ToolsNode sees a panic of the inline (first) tool as a panic; there is
 			// no enclosing run. Record it instead of letting it end the harness thread.
 			defer func() {
@@ -745,6 +773,11 @@ var pb2StreamLists = map[string]bool{"t1+t2+t1": true, "u+t1+t2": true, "t2+t2+t
 // at small bounds, everything else is cheap.
 func menu(sp *spec, quick bool) (bool, []int) {
 	ft := features(sp)
+	if sp.listHost() {
+		// tools given per call: two-call lists, success and one failing tool, no handler
+		ok := !sp.handler && !ft.hasU && ft.n == 2 && ft.allYield && ft.nFail <= 1 && ft.nMid == 0 && ft.kindIn(kInv, kS2, kBoth)
+		return ok, []int{0, 1}
+	}
 	if sp.host == "fanout" {
 		// two consumers of the streamed answers: success path of two-call lists, Stream only
 		ok := sp.mode == "stream" && !sp.handler && !ft.hasU && ft.nFail == 0 && ft.n == 2 && ft.noYield && ft.kindIn(kInv, kS2, kInv+","+kS2)
@@ -868,7 +901,7 @@ func main() {
 					yields := assignments(actors, func(string) []string { return []string{"1", "0"} })
 					for _, ym := range yields {
 						for _, mode := range []string{"invoke", "stream"} {
-							for _, host := range []string{"direct", "graph", "fanout"} {
+							for _, host := range []string{"direct", "graph", "fanout", "direct-list", "graph-list"} {
 								sp := &spec{calls: calls, kind: kind, fail: fail, handler: handler, mode: mode, host: host, yield: map[string]int{}}
 								for k, v := range ym {
 									if v == "1" {
@@ -886,7 +919,7 @@ func main() {
 								sp.name = fmt.Sprintf("calls[%s]/%s/%s/%s/kind[%s]/fail[%s]/yield[%s]", strings.Join(calls, "+"), host, mode, h,
 									renderMap(all, kind), renderMap(all, fail), renderMap(all, ym))
 								sc := harness.Scenario{Name: sp.name, Bounds: bounds, MaxExecs: 3_000_000, New: sp.build,
-									OneOrder: host == "direct", // the bare ToolsNode iterates no map; graph runs do
+									OneOrder: host == "direct" || host == "direct-list", // the bare ToolsNode iterates no map; graph runs do
 									HBCache:  mode == "stream" && os.Getenv("VERIF_C17_NOHB") == "",
 									Signature: func(err error) string {
 										var v *violation
